@@ -14,6 +14,8 @@ Decided (structural):
  * `For::to_tokens` (K12): the loop variable is the parameter of the closure given to
    `ForOperatorParam::new`, the body (all clauses, in order, each clause array a conjunction) is
    inside that closure; `InferredConj::from_conjunctions` keeps every goal of every clause array.
+ (round 4, shared) list iterators stop only at the end of the spine (with C21); all conjunction
+   builders (builders.check_all).
 """
 import C14
 import macrolib
@@ -142,6 +144,14 @@ def run(ctx, fb, cfg):
     for tyname, new in (("InferredConj", "InferredConj::new"),):
         C14.check_fold(ctx, lib, "C12.K6.clause-builder", "crate::operator::conj::%s::from_array" % tyname, new)
         C14.check_fold(ctx, lib, "C12.K6.clause-builder", "crate::operator::conj::%s::from_conjunctions" % tyname, new, inner="%s::from_array" % tyname)
+    import builders
+
+    builders.check_all(ctx, lib, "C12.K6.builders", only=("Conj", "DFSConj", "InferredConj"))
+    # `for x in &coll` over an LTerm list visits every element: the list iterators step head by head and
+    # stop only at the end of the spine (shared with C21)
+    import C21
+
+    C21.check_iterators(ctx, lib, "C12.K6.sibling-iterators")
     if cfg == "lib-default":
         S = macrolib.load_sem(ctx, fb)
         if S is not None:
